@@ -1,5 +1,6 @@
 import EaselModel.Core.Proto
 import EaselModel.Gencode.Model
+import EaselModel.Gencode.Translate
 import EaselModel.Generated.Gencode
 /-! Line-protocol driver for the C17 model (same ops as harness/h_gencode.c). -/
 open EaselModel EaselModel.Proto EaselModel.Alphabet EaselModel.Gencode
@@ -46,6 +47,42 @@ def tripletsLine (NT : Alphabet) (g : Gencode) : String := Id.run do
 
 def orfStr (o : Orf) : String := s!" {orfName o}:{o.frame}:{o.start}:{o.stop}:{o.aa.length}:{hx o.aa}:{hx (strBytes (orfDesc "seq" "a desc" o))}"
 
+def orfStrX (source desc : String) (o : Orf) : String :=
+  s!" {orfName o}:{o.start}:{o.stop}:{o.aa.length}:{hx o.aa}:{hx (strBytes (orfDesc source desc o))}"
+
+def bytesToString (l : List Nat) : String := String.ofList (l.map fun b => Char.ofNat b)
+
+/-- `xlate`: the main loops of esl-translate.c over the sequences of a file, set up as its `main()` does -/
+def xlate (NT : Alphabet) (ws : List String) : String :=
+  let flag (k : String) : Bool := (argNat? ws k).getD 0 ≠ 0
+  let o : Opts := { crick := flag "crick", watson := flag "watson", optm := flag "m", optM := flag "M", l := (argInt? ws "l").getD 20 }
+  if o.optm && o.optM then "bad-options" else
+  let wc := workstateCreate o
+  match codeForOpts NT AA EaselModel.Generated.Gencode.tables ((argInt? ws "id").getD 1) o with
+  | none => "enotfound"
+  | some g =>
+    let n := (argNat? ws "n").getD 0
+    let windowed := flag "W"
+    let rec go (fuel i : Nat) (w : Work) (acc : String) : Option (Work × String) :=
+      match fuel with
+      | 0 => some (w, acc)
+      | fuel + 1 =>
+        let name := (arg? ws s!"name{i}").getD "x"
+        let desc := bytesToString (argBytes ws s!"desc{i}")
+        let (st, dsq) := NT.digitize (argBytes ws s!"dna{i}")
+        if st ≠ .ok then none else
+        let d := (dsq.drop 1).take (dsq.length - 2)
+        match (if windowed then byWindows NT AA g wc 4092 w d else bySequence NT AA g wc w d) with
+        | none => none
+        | some w' =>
+          let news := (w'.c.out.take (w'.c.out.length - w.c.out.length)).reverse
+          go fuel (i + 1) w' (acc ++ String.join (news.map (orfStrX name desc)))
+    match go n 0 {} "" with
+    | none => "fault"
+    | some (w, acc) =>
+      let b (x : Bool) : Nat := if x then 1 else 0
+      s!"ok w={b wc.doWatson} c={b wc.doCrick} u={b wc.usingInit} l={wc.minlen} f=1 n={w.c.out.length}" ++ acc
+
 def step (s : Unit) (line : String) : Unit × String :=
   let ws := words line
   match ws with
@@ -61,6 +98,7 @@ def step (s : Unit) (line : String) : Unit × String :=
     | none => (s, "fault")
   else if op == "alttable" then
     (s, s!"ok {hx (strBytes (dumpAltCodeTable EaselModel.Generated.Gencode.tables))}")
+  else if op == "xlate" then (s, xlate NT ws)
   else if op == "read" || op == "readm" then
     match setTable EaselModel.Generated.Gencode.tables 1 with
     | none => (s, "bad-op")
